@@ -102,40 +102,44 @@ NA = {}
 
 # additions of the later build rounds: (appended to the technique, appended to the level text)
 EXTRA = {
- 'C01': ('; rst7 / gro templates folded through locals, LAMMPS write_box / parse_box evaluated as whole functions on a generic triclinic cell; abstract evaluation (sa/tensym.py, sa/ttext.py, sa/writers.py, sa/e2e.py) of writer and reader of the text formats on symbolic frames: write() recorded as pieces of text, read() / _parse / PdbStructure evaluated on a model file of those pieces; Trajectory.save_<fmt> -> load_<fmt> end to end with symbolic unit conversion',
+ 'C01': ('; rst7 / gro templates folded through locals, LAMMPS write_box / parse_box evaluated as whole functions on a generic triclinic cell; abstract evaluation (sa/tensym.py, sa/ttext.py, sa/writers.py, sa/e2e.py) of writer and reader of the text formats on symbolic frames: write() recorded as pieces of text, read() / _parse / PdbStructure evaluated on a model file of those pieces; Trajectory.save_<fmt> -> load_<fmt> end to end with symbolic unit conversion; NetCDF header initialisers evaluated on a recording handle against the AMBER conventions (type, shape, units of every variable); unit-tagged input of the HDF5 / NetCDF writers with the conversion symbolic; XTC / TRR / DCD savers and loaders end to end on model files (sa/xdrmodel.py, sa/dcdmodel.py)',
          ' For xyz, mdcrd, lammpstrj, gro, rst7 and PDB the coordinates, cell and time read back from the text written are, by value, the ones that went in (also for values that fill their fields, 1-4 and 10 atoms, triangular and concrete cells), the records sit in the columns of the published tables, and save_<fmt> followed by load_<fmt> returns the saved coordinates in nm.'),
- 'C02': ('; cursor update of array-backed readers evaluated as a linear / min form; capacity of every buffer handed to read_xtc / read_trr against the atom count the reader writes (path-compatible reaching allocations); every read_as_traj, load_pdb / load_pdbx, the text readers\' read / seek / tell, HDF5 / NetCDF read on model array stores and the XTC / TRR _read evaluated on model files over sequences of calls',
+ 'C02': ("; cursor update of array-backed readers evaluated as a linear / min form; capacity of every buffer handed to read_xtc / read_trr against the atom count the reader writes (path-compatible reaching allocations); every read_as_traj, load_pdb / load_pdbx, the text readers' read / seek / tell, HDF5 / NetCDF read on model array stores and the XTC / TRR _read evaluated on model files over sequences of calls; read / seek / tell of the Cython DCD class and of the ARC reader (on a model archive built by the rule) evaluated over call sequences; single strided frames, seek to the end, the remainder read twice",
          ' Buffers handed to the XDR readers hold as many atoms as the reader writes on every path (the TRR stride buffer does not: known finding). Sequences of read(n, stride, atom_indices) / seek / tell on 7-frame model files return the frames, atoms, cell and time rows of the definition and leave the cursor at the end of the window consumed (text formats, HDF5, NetCDF, XTC / TRR with and without cached offsets: the XTC cached-offset end of file is a known finding).'),
- 'C03': ('; tensor value numbering of join / stack / slice / atom_slice / center_coordinates on model trajectories (sa/tensym.py)',
+ 'C03': ('; tensor value numbering of join / stack / slice / atom_slice / center_coordinates on model trajectories (sa/tensym.py); md.join evaluated with recorder pieces; slice on view-backed trajectories (numpy base semantics); effect analysis through `with Cls(...) as f: f.write(self.xyz)` and self-method calls into the Python file classes',
          " For join, stack, slice and atom_slice every array of the result is shown, element for element on model trajectories, to be the numpy concatenation / indexing of the operands' arrays; cached traces - where carried - belong to the frames of the result and to frames centred on the geometric centre."),
- 'C04': ('; codec tables (bond-type floats, element pickle key); Topology / Chain / Residue / Atom instantiated from their source and copy / subset / join / insert / delete evaluated on a model topology',
+ 'C04': ('; codec tables (bond-type floats, element pickle key); Topology / Chain / Residue / Atom instantiated from their source and copy / subset / join / insert / delete evaluated on a model topology; PDB ATOM serials against CONECT numbers by evaluating write + _write_footer on model topologies (TER, atomless residues, more than four bonds); two reads of the HDF5 topology node share no object',
          ' The float codec of bond types is injective and decoded without rounding; elements are re-created on deepcopy / unpickle from a key that is unique in the element table. copy, subset and join are shown on a model topology to produce exactly the structure the operation calls for, with every preserved field and no object shared with the input.'),
  'C05': ('; every Python dispatcher evaluated on a model trajectory over periodic x cell x opt (which kernel, which box orientation, which orthogonality flag); the numpy reference functions (opt=False) by value against the documented scheme',
          ''),
- 'C06': ('; reduction of the closed-form cubic / quartic roots modulo the relations of their radicals; guard facts for every partial function of the solvers; Trajectory.superpose evaluated as a whole on model trajectories with memory-sharing views (what reaches the kernel in each role, what self.xyz is afterwards, cached traces dropped)',
+ 'C06': ('; reduction of the closed-form cubic / quartic roots modulo the relations of their radicals; guard facts for every partial function of the solvers; Trajectory.superpose evaluated as a whole on model trajectories with memory-sharing views (what reaches the kernel in each role, what self.xyz is afterwards, cached traces dropped); paths to the |q|^2 test of msdFromMandG (which adjugate rows the quaternion may come from; identity only when all four vanish); msd_atom_major evaluated for n = 1..9 atoms',
          " Every root expression returned by the Cardano / trigonometric / repeated-root cases of the cubic and by Ferrari's method for the quartic (16 paths) satisfies its polynomial modulo sqrt(u)^2 = u, cbrt(u)^3 = u, the triple-angle identity and the resolvent; every sqrt / acos / cube root / division is taken under conditions that keep its argument in the domain."),
  'C07': ('; dispatch by evaluation over periodic x cell x opt; backbone torsion index builders evaluated on a two-chain model topology',
          ''),
  'C08': ('; scratch stores and skipped residues decided on decoded path conditions; no function-local static in any kernel source or header',
          ' No kernel keeps state between calls.'),
+ 'C09': ('; find_closest_contact by value numbering: compared vector = difference + whole-number combination of the cell vectors',
+         ''),
  'C10': ('; algebraic value numbering of both loop bodies of compute_neighbors for generic atoms i, j against the definition built from the parameters; face tests and the y row of a z voxel under triclinic cells in the cell list; candidate wrap and voxel sizes of the cell list by value numbering with decoded path conditions',
          ' In triclinic cells the cell list visits the whole row of y voxels for a z voxel (a single periodic-copy offset loses pairs near half the box).'),
- 'C11': ("; evaluation of make_molecules_whole / image_molecules through the class's own methods on a model trajectory (array identity: copy unless inplace; default bond list); no topology-derived memo on the trajectory; find_molecules evaluated on model bond graphs (connected components)",
+ 'C11': ("; evaluation of make_molecules_whole / image_molecules through the class's own methods on a model trajectory (array identity: copy unless inplace; default bond list); no topology-derived memo on the trajectory; find_molecules evaluated on model bond graphs (connected components); a caller-supplied bond order reaches the kernel unchanged",
          ''),
- 'C12': ('; evaluation of the infix operand chains on model operands; range / implicit-list / regex condition nodes by evaluation on model tokens; case-sensitivity of the grammar terminals',
+ 'C12': ("; evaluation of the infix operand chains on model operands; range / implicit-list / regex condition nodes by evaluation on model tokens; case-sensitivity of the grammar terminals; every keyword's attribute chain evaluated on a topology instantiated from the class sources through a history of edits (insert_atom, delete_atom_by_index, add_bond), containment decided with the class's own __eq__",
          ''),
  'C13': ('; shrake_rupley evaluated on a model trajectory (mode x selection x changed radii x falsy values), asa_frame by value numbering of one generic iteration with decoded path conditions (target skip, blocker test, point-in-sphere test, area formula)',
          ''),
- 'C14': ('; baker_hubbard / wernet_nilsson evaluated on an exact-rational threshold world; _get_bond_triplets on a model topology; hydrogen placement and sentinel-indexed reads with the path conditions in force',
+ 'C14': ("; baker_hubbard / wernet_nilsson evaluated on an exact-rational threshold world; _get_bond_triplets on a model topology; hydrogen placement and sentinel-indexed reads with the path conditions in force; the slot of residue ri's hydrogen decided from the offsets stored; donor bonds of mixed participation",
          ' The hydrogen-bond criteria are decided on worlds that sit on the thresholds (distance = cutoff, angle = cutoff, presence = freq, cone met with equality).'),
- 'C15': ('; compute_dssp and the backbone index arrays evaluated on seven model residues; the state -> character map and the output offset of dssp() by value numbering (switch statements executed)',
+ 'C15': ('; compute_dssp and the backbone index arrays evaluated on seven model residues; the state -> character map and the output offset of dssp() by value numbering (switch statements executed); locals read from a ladder are read again after the merges that grow it (calculate_beta_sheets)',
          ''),
  'C16': ('; tensor value numbering (sa/tensym.py) of the whole-array descriptors on a generic instance of every axis, compute_contacts evaluated on a model topology of unequal residues, RDF functions with histogram / distance calls summarised',
          ' Also decided by tensor evaluation: inertia tensor (both implementations), Q tensor and nematic order, dipole moments (sign included), density through cell lengths and angles, squareform, the chunk partition and weights of compute_rdf_t.'),
- 'C17': ('; tensor evaluation of the unitcell_vectors getter / setter on every data-dependent path; lengths and angles from the same object at every call site; box vectors and the LAMMPS box (writer, reader, their composition) by whole-function evaluation; unitcell_volumes against the determinant of the real unitcell_vectors property (normal form, else numeric identity test of the two expressions)',
+ 'C17': ('; tensor evaluation of the unitcell_vectors getter / setter on every data-dependent path; lengths and angles from the same object at every call site; box vectors and the LAMMPS box (writer, reader, their composition) by whole-function evaluation; unitcell_volumes against the determinant of the real unitcell_vectors property (normal form, else numeric identity test of the two expressions); a box with a zero diagonal is a cell',
          ''),
- 'C18': ("; freshness of the arrays handed out by read() over the class's own methods; seek() as a path interpreter over (position, offset, length) for whence x sign of offset, helpers interpreted in place",
+ 'C18': ("; freshness of the arrays handed out by read() over the class's own methods; seek() as a path interpreter over (position, offset, length) for whence x sign of offset, helpers interpreted in place; tell() after every read of the text formats evaluated on model files (complete and with the last frame cut short)",
          ' read() never hands out (a view of) an array the reader keeps (scratch buffers, caches).'),
- 'C19': ('; argument-only refusals before the first-write initialisation; reachability of the atom-count refusal; streaming text writers evaluated on symbolic frames (one call vs several calls, piece by piece); HDF5 / NetCDF write on model array stores (partition equivalence, ragged later writes refused without a trace)',
+ 'C19': ('; argument-only refusals before the first-write initialisation; reachability of the atom-count refusal; streaming text writers evaluated on symbolic frames (one call vs several calls, piece by piece); HDF5 / NetCDF write on model array stores (partition equivalence, ragged later writes refused without a trace); write of the three Cython classes in k calls on model files; ensure_type evaluated from its source (a 0 in the shape is a length, not a wildcard); PDB write refuses a block of frames',
          ' For xyz, mdcrd, lammpstrj, gro the text of n frames written in k calls equals the text of one call; for HDF5 / NetCDF k calls leave the arrays and counter of one call, and a later write with another atom count or with time / cell added or dropped is refused and changes nothing.'),
+ 'C20': ('; path classes (expanduser / expandvars change which file a string names); helpers in mdtraj/utils that destroy their parameter carry the obligation to their callers; Trajectory.save reaches the saver on every normal exit; open modes held in locals',
+         ''),
 }
